@@ -157,6 +157,7 @@ class Interp:
         self.mul_mode = mul_mode
         self.ambiguous = False
         self.loose = 0  # extra tolerance (in output steps) the evaluated reference kernels ask for
+        self.tables = {}  # output tensor index -> the 256-entry table that defines an 8-bit table-driven operator (used to bound how a deviation of its input is amplified)
         self.undef = {}  # tensor index -> boolean mask of elements for which the reference defines no value (SQRT/LOG/RSQRT outside their domain)
         self.model = model
         self.sg = model["subgraphs"][0]
@@ -477,6 +478,7 @@ class Interp:
                 else:
                     tabs = c19.ref_lrelu_tables(it["dtype"], si[0], int(zi[0]), so[0], int(zo[0]), opts.get("Alpha", 0.0))
                     table = np.asarray(tabs[0], I64)
+            self.tables[o["outputs"][0]] = np.asarray(table, I64)
             return [table[x - lo]]
         if code == "SQUARED_DIFFERENCE":
             # squared_difference.cc (int8): both operands shifted left by 7, scaled to twice the larger input scale, the squared difference scaled to the output
@@ -576,6 +578,8 @@ class Interp:
                 m = undefined[x - lo]
                 if m.any():
                     self.undef[o["outputs"][0]] = m
+            if not undefined.any():
+                self.tables[o["outputs"][0]] = np.asarray(table, I64)
             return [table[x - lo]]
         if code == "MEAN":
             it = T[ins[0]]
